@@ -1,8 +1,13 @@
 """C10 — the scanner reports exactly the positions where the pattern matches (plus the C02/C03
 obligations of the interpreter: `pat_exec` on arbitrary atom lists)."""
-import re
+import os, re
 from .props import Prop, spec_field, klass
 from . import gen_scan
+
+
+# C10_STRICT_FINDS=1 judges `finds` against the literal statement "succeeds precisely when exactly one
+# candidate position matches" instead of the proved variant C10_finds_iff_unique_partial
+STRICT_FINDS = os.environ.get("C10_STRICT_FINDS", "") == "1"
 
 
 def parse_hits(txt):
@@ -33,13 +38,17 @@ class C10(Prop):
     pid = "C10"
     title = "the scanner reports exactly the positions where the pattern matches"
     thm_modules = ["PeliteModel.Thm.C10"]
-    gens = [gen_scan.gen_scan, gen_scan.gen_skiptable, gen_scan.gen_exec]
+    gens = [gen_scan.gen_corpus, gen_scan.gen_scan, gen_scan.gen_skiptable, gen_scan.gen_exec]
 
     def oracle(self, op, impl, model, spec):
         fam = op.split(" ", 1)[0]
         if fam not in ("scan", "scan_code", "finds", "finds_code"):
             return None
-        if spec_field(spec, "hyp") != "1":
+        hyp = spec_field(spec, "hyp")
+        if fam.startswith("finds") and STRICT_FINDS:
+            # the literal statement: no "no match in the grey zone" hypothesis (false, see C10_finds_iff_unique_false)
+            hyp = spec_field(spec, "hypw")
+        if hyp != "1":
             return None
         if klass(impl) != "ok":
             if impl.startswith("noimg"):
